@@ -192,15 +192,26 @@ def _find_and_run_report_generators(
     to_date: date,
 ) -> None:
     generators = configuration.generators.copy()
+    plugin_name: str
+    is_package: bool
+
+    # Check that all requested generators exist before running any of them, so that no report is written if the configuration is wrong
+    packages: List[ModuleType] = []
+    available_generators: Set[str] = set()
     for package_path in package_paths:
-        # Load report generator plugins and call their generate() method
         try:
             package: ModuleType = import_module(package_path)
         except ModuleNotFoundError:
             # Path not found
             continue
-        plugin_name: str
-        is_package: bool
+        packages.append(package)
+        available_generators.update(plugin_name for *_, plugin_name, is_package in iter_modules(package.__path__, package.__name__ + ".") if not is_package)
+    if generators - available_generators:
+        LOGGER.error("Report generator plugins %s not found. Exiting...", ", ".join(sorted(generators - available_generators)))
+        sys.exit(1)
+
+    for package in packages:
+        # Load report generator plugins and call their generate() method
         for *_, plugin_name, is_package in iter_modules(package.__path__, package.__name__ + "."):
             if is_package:
                 continue
